@@ -101,7 +101,7 @@ Definition expected_Registry_ReadTagsFrom : list sstmt :=
                                   :: SIf "err != nil" (SReturn "return n + n1 + n2, err" :: nil) nil
                                      :: SSet "n += n1 + n2"
                                         :: SIf "length < 0" (SReturn "return n, errors.New(""negative tag length: "" + strconv.Itoa(int(length)))" :: nil) nil
-                                           :: SSet "values := make([]*E, length)"
+                                           :: SSet "values := make([]*E, 0, min(int(length), 1024))"
                                               :: SSet "var id pk.VarInt"
                                                  :: SFor "i := 0; i < int(length); i++"
                                                       (SEff "n3, err = id.ReadFrom(r)"
@@ -109,7 +109,7 @@ Definition expected_Registry_ReadTagsFrom : list sstmt :=
                                                           :: SIf "id < 0 || int(id) >= len(reg.values)"
                                                                (SSet "err = errors.New(""invalid id: "" + strconv.Itoa(int(id)))"
                                                                 :: SReturn "return n + n3, err" :: nil) nil
-                                                             :: SSet "values[i] = &reg.values[id]" :: SSet "n += n3" :: nil)
+                                                             :: SSet "values = append(values, &reg.values[id])" :: SSet "n += n3" :: nil)
                                                     :: SSet "reg.tags[string(tag)] = values" :: nil) :: SReturn "return n, nil" :: nil.
 
 Definition expected_idle_ReadFrom : list sstmt :=
